@@ -16,7 +16,7 @@
 
 use std::{cmp, thread};
 use std::fs::{self, canonicalize, create_dir_all, read_link, File, Metadata};
-use std::path::{Path, PathBuf};
+use std::path::{Component, Path, PathBuf};
 use std::sync::Arc;
 
 use crossbeam_channel as cbc;
@@ -185,10 +185,11 @@ pub fn tree_walker(
             .next_back()
             .ok_or(XcpError::InvalidSource("Failed to find source directory name."))?;
 
-        let target_base = if dest.exists() && dest.is_dir() && !config.no_target_directory {
-            dest.join(sourcedir)
-        } else {
-            dest.to_path_buf()
+        // A source ending in `..` (or `/`, `.`) has no name of its own to
+        // append; like cp, copy its contents into the destination itself.
+        let target_base = match sourcedir {
+            Component::Normal(name) if dest.exists() && dest.is_dir() && !config.no_target_directory => dest.join(name),
+            _ => dest.to_path_buf(),
         };
         debug!("Target base is {:?}", target_base);
 
